@@ -6,7 +6,7 @@
    array in d has n rows (one sample), [has_leaf d] = there is an array, [nbatches n b] = number of
    batches of n rows in steps of b (= ceil(n/b)). *)
 From Coq Require Import ZArith List Bool Arith.
-From TFV Require Import State.Data State.Data_proofs.
+From TFV Require Import State.Data State.Data_proofs State.DataLazy_proofs.
 Import ListNotations.
 
 (* merge (split b d) = d: every tree (any nesting; empty dicts / lists / tuples anywhere), every
@@ -97,19 +97,28 @@ Theorem C18_dat_order_inverse :
 Proof. exact dat_order_inverse. Qed.
 Print Assumptions C18_dat_order_inverse.
 
-(* lazy = eager, LazyCall without extra entries: any number of batches.  With extra entries the
-   statement C18_lazy_full_statement below is tied by the correspondence only. *)
-Theorem C18_lazy_eq_eager_partial :
+(* lazy = eager, LazyCall WITH extra entries (any number of batches, any batch size, extra with or without arrays):
+   the lazily produced batches {**f(x_i), **extra_i} merged back are {**f(x), **extra} *)
+Theorem C18_lazy_eq_eager :
+  forall fn mx b n x extra, commutes fn ->
+    0 < b -> 0 < n -> uniform n x -> has_leaf x = true -> uniform n extra ->
+    merge_all (lazy_batches fn mx b x extra) = Some (lazy_eval fn x extra).
+Proof. exact lazy_with_extra_eq_eager. Qed.
+Print Assumptions C18_lazy_eq_eager.
+(* the no-extra instance *)
+Theorem C18_lazy_eq_eager_no_extra :
   forall fn mx b n x, commutes fn ->
     0 < b -> 0 < n -> uniform n x -> has_leaf x = true ->
     merge_all (lazy_batches fn mx b x empty_dict) = Some (lazy_eval fn x empty_dict).
 Proof. exact lazy_eq_eager. Qed.
-Print Assumptions C18_lazy_eq_eager_partial.
-Definition C18_lazy_full_statement : Prop :=
-  forall fn mx b n x extra, commutes fn ->
-    0 < b -> 0 < n -> uniform n x -> has_leaf x = true -> uniform n extra ->
-    merge_all (lazy_batches fn mx b x extra) = Some (lazy_eval fn x extra).
-(* missing: merging position-wise commutes with {**a, **b} when all f(x_i) have the same keys *)
+Print Assumptions C18_lazy_eq_eager_no_extra.
+(* the iteration between /repo d64dc15 and 81b15cd violated the statement for a non-empty extra WITHOUT arrays
+   (x = {0:[1,2]}, extra = {7:{}}, MAX_ITER 1: row 2 lost) - found while proving the statement; the current one satisfies it *)
+Theorem C18_lazy_d64_array_free_extra_refuted :
+  ~ lazy_d64_full_statement /\
+  merge_all (lazy_batches (fun d => d) 1 1 cx_x cx_extra) = Some (lazy_eval (fun d => d) cx_x cx_extra).
+Proof. exact lazy_d64_array_free_extra_refuted. Qed.
+Print Assumptions C18_lazy_d64_array_free_extra_refuted.
 (* F14 (repaired by d64dc15): the empty extra used to be split on its own (MAX_ITER copies of {}),
    which ended the iteration after MAX_ITER batches; the current iteration does not *)
 Example C18_old_lazy_max_iter :
